@@ -61,13 +61,14 @@ def handle(c):
     try:
         p = kmodels.build(spec, make_driver(c['driver']))
         rec = om.SqliteRecorder(fname, record_viewer_data=False)
-        p.add_recorder(rec)
-        p.recording_options['record_inputs'] = True
-        p.recording_options['includes'] = c['partial'] if c.get('partial') is not None else ['*']
-        p.driver.add_recorder(rec)
-        p.driver.recording_options['includes'] = ['*']
-        p.driver.recording_options['record_inputs'] = True
-        p.model.add_recorder(rec)
+        if not c.get('only_sub'):
+            p.add_recorder(rec)
+            p.recording_options['record_inputs'] = True
+            p.recording_options['includes'] = c['partial'] if c.get('partial') is not None else ['*']
+            p.driver.add_recorder(rec)
+            p.driver.recording_options['includes'] = ['*']
+            p.driver.recording_options['record_inputs'] = True
+            p.model.add_recorder(rec)
         if c.get('lagging') and '' in spec.get('solvers', {}):
             pass
         p.setup()
@@ -175,7 +176,11 @@ def handle(c):
 
         def vid(a):
             return table.setdefault(np.asarray(a, dtype=float).ravel().tobytes(), len(table))
-        if True:
+        # the abstract model has no unit conversion: a case is compared with it only when every connected input of
+        # the model has the units of its source (the oracle above is evaluated in every case)
+        mi = q.model.get_io_metadata(iotypes=('input',), metadata_keys=['units'], return_rel_names=False)
+        mo = q.model.get_io_metadata(iotypes=('output',), metadata_keys=['units'], return_rel_names=False)
+        if all(mi[k].get('units') == mo[conns[k]].get('units') for k in ins):
             out.append({'conns': sorted(conns.items()), 'cin': [[k, vid(v)] for k, v in cin],
                         'cout': [[k, vid(v)] for k, v in cout], 's': [[k, vid(b_out[k])] for k in outs],
                         'outs': outs, 'ins': ins,
